@@ -92,7 +92,7 @@ def layout (t : Tree) : Tbl := layoutAt [] true t
 
 /-- raster order used when emitting rows -/
 def rasterLt (a b : PCell) : Bool := a.row < b.row || (a.row == b.row && a.col < b.col)
-def rasterSort (cs : List PCell) : List PCell := cs.mergeSort (fun a b => !rasterLt b a)
+def rasterSort (cs : List PCell) : List PCell := insertionSort (fun a b => !rasterLt b a) cs
 
 /-- node at a path -/
 def Tree.at? : Tree → List Nat → Option Tree
